@@ -1238,6 +1238,8 @@ val list_str_eqb : char list list -> char list list -> bool
 val kept_before_effect :
   char list -> (char list * node) list -> node list -> bool
 
+val temps_preorder : char list -> node -> char list list
+
 val seq_order_issues :
   char list -> (char list * node) list -> node -> char list list
 
